@@ -257,7 +257,7 @@ impl Property for C05 {
         "C05"
     }
     fn rule(&self) -> String {
-        "case = final store of a C01 history (so with gaps, id-less items, every selector kind, end-aligned and relative offsets, all value types) x pretty/compact x {one document through to_json_string/from_str, one file through to_file/from_file, resources and datasets moved to @include stand-off files (.txt / .json), one level of included sub-store}. Oracle: the reload succeeds; the handle-free content snapshot (ordered live items, references as ordinals, offsets with alignment, typed values, texts) of the reloaded store equals the original's; the reloaded store is self-consistent (C01 consistency battery); writing the reloaded store again gives byte-identical output (for stand-off: every file); in stand-off mode the loaded and saved store is then changed through the API (new key, new data, new annotation, removals), saved and reloaded, and must equal a twin loaded from the inline document that received the same changes (the changed flags of the members decide which files are rewritten). Non-trivial = the store has a gap, an id-less item, a key/data selector or an end-aligned/relative offset; distinct = distinct case JSON.".into()
+        "case = final store of a C01 history (so with gaps, id-less items, every selector kind, end-aligned and relative offsets, all value types; in one history of twelve the text of the first resource starts with U+FEFF, which is an ordinary codepoint of the text) x pretty/compact x {one document through to_json_string/from_str, one file through to_file/from_file, resources and datasets moved to @include stand-off files (.txt / .json), one level of included sub-store}. Oracle: the reload succeeds; the handle-free content snapshot (ordered live items, references as ordinals, offsets with alignment, typed values, texts) of the reloaded store equals the original's; the reloaded store is self-consistent (C01 consistency battery); writing the reloaded store again gives byte-identical output (for stand-off: every file); in stand-off mode the loaded and saved store is then changed through the API (new key, new data, new annotation, removals), saved and reloaded, and must equal a twin loaded from the inline document that received the same changes (the changed flags of the members decide which files are rewritten). Non-trivial = the store has a gap, an id-less item, a key/data selector or an end-aligned/relative offset; distinct = distinct case JSON.".into()
     }
     fn assumptions(&self) -> Vec<String> {
         vec![
@@ -293,13 +293,28 @@ impl Property for C05 {
         ];
         let grow = prop_oneof![1 => Just(vec![]), 3 => proptest::collection::vec(grow_op, 1..=2)];
         let hostile_cfg = HistCfg { hostile: true, ..cfg.clone() };
-        (prop_oneof![4 => history_strategy(cfg), 1 => history_strategy(hostile_cfg)], any::<bool>(), mode, grow)
-            .prop_map(|(hist, compact, mode, grow)| Case { hist, compact, mode, grow })
+        // one history in twelve: the text of its first resource starts with U+FEFF (a byte order mark is an ordinary
+        // codepoint of the text: readers of stand-off text files must not treat it as an encoding signature)
+        (prop_oneof![4 => history_strategy(cfg), 1 => history_strategy(hostile_cfg)], any::<bool>(), mode, grow, 0u8..12)
+            .prop_map(|(mut hist, compact, mode, grow, bom)| {
+                if bom == 0 {
+                    for op in hist.ops.iter_mut() {
+                        if let Op::AddResource { text, .. } = op {
+                            text.insert(0, '\u{feff}');
+                            break;
+                        }
+                    }
+                }
+                Case { hist, compact, mode, grow }
+            })
             .boxed()
     }
 
     fn run(&self, case: &Case) -> Outcome {
         let mut out = Outcome::new();
+        if case.hist.ops.iter().any(|op| matches!(op, Op::AddResource { text, .. } if text.starts_with('\u{feff}'))) {
+            out.label("text_starts_with_bom");
+        }
         let Some(m) = final_store(&case.hist, &mut out) else { return out };
         let model_content = content_of_model(&m.model);
         let store = m.store;
